@@ -373,6 +373,35 @@ class Result:
         return 1 if self.violations else 0
 
 
+def translate(res, key, desc, thunk):
+    """Run a source-to-Coq translator (its parsing half).  When the source no longer has the shape the translator
+    reads (GenError) the tie is broken, not the machinery: the translation of the last recognised source
+    (_build/cache/translators, else the committed snapshot corpus/translators made by tools/snapshot_translators.py)
+    is returned instead, so the model of the last recognised source is compared with the code as it is now and the
+    search runs; the driver reports the broken translator with no-failing-input-found only when nothing was found."""
+    import pickle
+    cache = os.path.join(BUILD, "cache", "translators", key + ".pkl")
+    try:
+        out = thunk()
+        os.makedirs(os.path.dirname(cache), exist_ok=True)
+        blob = pickle.dumps(out, protocol=4)
+        if not os.path.exists(cache) or open(cache, "rb").read() != blob:
+            with open(cache, "wb") as f:
+                f.write(blob)
+        return out
+    except Exception as ex:
+        if type(ex).__name__ != "GenError":
+            raise
+        log("translator %s (%s): %s" % (key, desc, ex))
+        if res is not None:
+            res.extra.setdefault("broken_translator", []).append({"translator": "%s (%s)" % (key, desc), "error": str(ex)})
+        for pth in (cache, os.path.join(VERIF, "corpus", "translators", key + ".pkl")):
+            if os.path.exists(pth):
+                with open(pth, "rb") as f:
+                    return pickle.load(f)
+        raise
+
+
 def check_proofs(res, pid, targets, props_file, search=None, timeout=1500):
     """Standard proof step of a check: hygiene grep, build per-property targets (Props file forced),
     Print Assumptions allow-list.  On failure calls `search(log)` which should look for a concrete failing
